@@ -552,7 +552,15 @@ macro_rules! insert_round {
    ($T:ty, $K:ty, $pool:expr, $plan:expr, $inside:expr, $seed:expr, $keys:expr) => {{
       let pool: &rayon::ThreadPool = $pool;
       let plan: &Vec<Vec<(i32, usize)>> = $plan;
-      let mut ind: $T = if $inside { pool.install(|| Default::default()) } else { Default::default() };
+      // where the index value is created decides how a thread-sharded index sizes itself: on the main thread (global
+      // pool), on a thread of the inserting pool, or (mode 2) inside a ONE-thread pool, so that every inserting worker
+      // maps to the same shard
+      let mode: u64 = $inside;
+      let mut ind: $T = match mode {
+         1 => pool.install(|| Default::default()),
+         2 => rayon::ThreadPoolBuilder::new().num_threads(1).build().expect("pool").install(|| Default::default()),
+         _ => Default::default(),
+      };
       let barrier = SpinBarrier::new(plan.len());
       verif::perturb_arm($seed);
       {
@@ -635,22 +643,26 @@ fn main_conc(out: &mut Out) {
                }
                let rseed = (seed.wrapping_mul(0x2545_F491_4F6C_DD1D) ^ h ^ ((n as u64) << 48) ^ round.wrapping_mul(0x9E37_79B9)) | 1;
                let mut rng = Rng(rseed);
-               let inside = round % 2 == 1; // the index is created on a pool thread / on the main thread
+               // creation mode of the index: 0 main thread, 1 a thread of the inserting pool, 2 a one-thread pool
+               // (bulk round: many inserts per worker, no perturbation, all workers share one shard)
+               let inside: u64 = if round % 10 == 9 { 2 } else { round % 2 };
+               let per_thread = if inside == 2 { cfg["per_thread_big"].as_u64().unwrap_or(1000) as usize } else { per_thread };
+               let rseed_p = if inside == 2 { 0 } else { rseed };
                let mut o = json!({"ty": ty, "threads": n, "round": round, "seed": rseed, "inside": inside});
                let r = match ty.as_str() {
                   "CRelFullIndex" => {
                      let race_keys: Vec<i32> = (0..3).map(|_| rng.below(4) as i32).collect::<std::collections::BTreeSet<_>>().into_iter().collect();
                      o["race_keys"] = json!(race_keys);
-                     guarded(|| race_round(&pool, n, &race_keys, inside, rseed))
+                     guarded(|| race_round(&pool, n, &race_keys, inside == 1, rseed))
                   },
                   _ => {
                      let pl = plan(&mut rng, n, per_thread, nkeys);
                      o["plan"] = json!(pl);
                      let keys: Vec<i64> = if ty == "CRelNoIndex" { vec![1] } else { (0..nkeys as i64).collect() };
                      match ty.as_str() {
-                        "CRelIndex" => guarded(|| insert_round!(CRelIndex<K1, usize>, K1, &pool, &pl, inside, rseed, keys)),
-                        "CLatIndex" => guarded(|| insert_round!(CLatIndex<K1, usize>, K1, &pool, &pl, inside, rseed, keys)),
-                        "CRelNoIndex" => guarded(|| insert_round!(CRelNoIndex<usize>, (), &pool, &pl, inside, rseed, keys)),
+                        "CRelIndex" => guarded(|| insert_round!(CRelIndex<K1, usize>, K1, &pool, &pl, inside, rseed_p, keys)),
+                        "CLatIndex" => guarded(|| insert_round!(CLatIndex<K1, usize>, K1, &pool, &pl, inside, rseed_p, keys)),
+                        "CRelNoIndex" => guarded(|| insert_round!(CRelNoIndex<usize>, (), &pool, &pl, inside, rseed_p, keys)),
                         other => panic!("unknown concurrent type {other}"),
                      }
                   },
